@@ -465,7 +465,7 @@ func TestC01_Known(t *testing.T) { runKnownWorldCases(t, "C01", c01RunCase) }
 
 func TestC01_Replay(t *testing.T) { replayWorldCase(t, c01RunCase) }
 
-const c01Rule = "C01: rapid-generated histories (1..8 operations quick, 1..12 thorough) of install/upgrade/rollback/uninstall with flags (atomic, replace, cleanup-on-fail, keep-history, max-history 0..4, no-hooks) over generated charts and hook sets, on the memory, Secret and ConfigMap backends; each operation draws a fault plan (none | k-th cluster request rejected | k-th waiter call fails | k-th storage write fails | process death at external call k) with k drawn from the number of calls the operation really makes (counted on a clone); the thorough tier additionally enumerates every k for every fault kind for the last operation of a quarter of the histories. Ledger invariants I1-I5 are evaluated after every operation, including the recovery operations after a crash. Non-trivial = at least 2 operations and (a fault fired, or a crash happened, or pruning deleted a revision, or a rollback / install --replace created a revision); distinct by (backend, operations with flags and fault positions)."
+const c01Rule = "C01: rapid-generated histories (1..8 operations quick, 1..12 thorough) of install/upgrade/rollback/uninstall with flags (atomic, replace, cleanup-on-fail, keep-history, max-history 0..4, no-hooks) over generated charts and hook sets, on the memory, Secret and ConfigMap backends (the two Kubernetes backends list records by name, as an API server does); one case in five starts from a history of 9-12 revisions; each operation draws a fault plan (none | k-th cluster request rejected | k-th waiter call fails | k-th storage write fails | a storage READ fails, half of them aimed at the 'which revision is deployed' lookups | process death at external call k) with k drawn from the number of calls the operation really makes (counted on a clone); the thorough tier additionally enumerates every k for every fault kind for the last operation of a quarter of the histories. Ledger invariants I1-I5 are evaluated after every operation, including the recovery operations after a crash. Non-trivial = at least 2 operations and (a fault fired, or a crash happened, or pruning deleted a revision, or a rollback / install --replace created a revision); distinct by (backend, operations with flags and fault positions)."
 
 var c01Assumptions = []string{
 	"the cluster is the in-memory API-server simulator behind the real kube.Client (no admission, defaulting, conflicts, finalizers)",
